@@ -1,7 +1,7 @@
 #!/usr/bin/env python3
 """prototype in-situ transformer: copy crate, wrap selected regions in verus!{}, splice contracts"""
 import re, sys, os, shutil, subprocess
-SRC='/repo/simple-dns'; DST='/tmp/vx2/scr'
+SRC='/repo/simple-dns'; DST='/tmp/vx3/scr'
 def fresh():
     shutil.rmtree(DST, ignore_errors=True)
     shutil.copytree(SRC, DST, ignore=shutil.ignore_patterns('target'))
@@ -68,7 +68,9 @@ def rules(p):
             elif s[j]==')':d-=1
             j+=1
         inner=s[start:j-1].strip().rstrip(',').strip()
-        if not inner.endswith('.try_into()?'): continue
+        if not inner.endswith('.try_into()?'):
+            out.append(s[pos:m.start()]+'crate::vx::arr_be_%s(%s)'%(m.group(1),inner)); pos=j
+            continue
         e=inner[:-len('.try_into()?')].strip()
         out.append(s[pos:m.start()]+'crate::vx::be_%s(&%s)?'%(m.group(1),e)); pos=j
     out.append(s[pos:]); s=''.join(out)
@@ -77,7 +79,7 @@ def rules(p):
     s=re.sub(r'match (data\[[^\]\n]*\]) \{', r'let vx_scrut = \1;\n            match vx_scrut {', s)
     wr(p,s)
 def run(extra=()):
-    rlib=[f for f in os.listdir('/tmp/vx2/vt/debug/deps') if f.startswith('libbitflags') and f.endswith('.rlib')][0]
-    cmd=['verus','--crate-type=lib','src/lib.rs','--multiple-errors','30','--extern','bitflags=/tmp/vx2/vt/debug/deps/'+rlib,'-L','/tmp/vx2/vt/debug/deps',*extra]
+    rlib=[f for f in os.listdir('/tmp/vx3/vt/debug/deps') if f.startswith('libbitflags') and f.endswith('.rlib')][0]
+    cmd=['verus','--crate-type=lib','src/lib.rs','--multiple-errors','30','--extern','bitflags=/tmp/vx3/vt/debug/deps/'+rlib,'-L','/tmp/vx3/vt/debug/deps',*extra]
     r=subprocess.run(cmd,cwd=DST,capture_output=True,text=True)
     return r.stdout+r.stderr
